@@ -272,16 +272,23 @@ type onceState struct {
 	vc      VC
 }
 
-// Once is the shim of sync.Once.
+// Once is the shim of sync.Once. Whether the function has run is a property of the
+// object and survives the execution in which it ran (an instance that is used in one
+// controlled execution and again in a later one must find its Once done, as in Go);
+// only the wait queue and the clocks are per execution.
 type Once struct {
 	real sync.Once
+	done bool
 }
 
 // Do is sync.Once.Do.
 func (o *Once) Do(f func()) {
 	s := S
 	if s == nil {
-		o.real.Do(f)
+		o.real.Do(func() {
+			defer func() { o.done = true }()
+			f()
+		})
 		return
 	}
 	if s.onces == nil {
@@ -289,7 +296,7 @@ func (o *Once) Do(f func()) {
 	}
 	st := s.onces[o]
 	if st == nil {
-		st = &onceState{id: s.nobj}
+		st = &onceState{id: s.nobj, done: o.done}
 		s.nobj++
 		s.onces[o] = st
 	}
@@ -307,6 +314,8 @@ func (o *Once) Do(f func()) {
 			s.record(g, false)
 			defer func() {
 				st.done = true
+				o.done = true
+				o.real.Do(func() {})
 				st.running = false
 				if s.opt.Clocks {
 					st.vc = s.cur.clock.copyVC()
